@@ -542,6 +542,11 @@ func enumBig(env engine.Env, yield func(Case) bool) {
 				if !yield(Case{Framing: f, Stream: sb.Bytes(), Pad: n, Tail: engine.Bytes(tail), Origin: "big-complete", EOFWithData: ct == ""}) {
 					return
 				}
+				// ... and as the last record of the stream: then the end of input is a clean one
+				idx++
+				if env.Mine(idx) && !yield(Case{Framing: f, Stream: sb.Bytes(), Pad: n, Origin: "big-complete-last", EOFWithData: ct != ""}) {
+					return
+				}
 			}
 		}
 	}
